@@ -173,13 +173,20 @@ pub fn show_cfg(g: &GenRun) -> String {
             show_list(&f.rules, |r| format!("{} {} {}", r.id, tl(&r.tags), show_list(&r.scens, sc)))
         )
     });
+    // effective background length (feature background ++ rule background) per scenario
+    let mut bgs: Vec<(usize, usize)> = vec![];
+    for f in &g.feats {
+        for s in &f.scens { bgs.push((s.id, f.bg.len())); }
+        for r in &f.rules { for s in &r.scens { bgs.push((s.id, f.bg.len() + r.bg.len())); } }
+    }
     format!(
-        "{} {} {} {} {} {} {} {} {} {} {}",
+        "{} {} {} {} {} {} {} {} {} {} {} {}",
         match c.builder_conc { None => "u".to_owned(), Some(None) => "none".to_owned(), Some(Some(n)) => format!("n {n}") },
         on(c.cli_conc), b(c.builder_ff), b(c.cli_ff), on(c.builder_retries), on(c.cli_retries),
         od(c.builder_after), od(c.cli_after), b(c.custom_which),
         show_list(&tbl, |(k, v)| format!("{} {}", hex(k), show_opt(v.as_ref(), |n| n.to_string()))),
         feats,
+        show_list(&bgs, |(s, n)| format!("{s} {n}")),
     )
 }
 
@@ -279,7 +286,7 @@ pub fn sched_request(sg: &SchedGen, log: &[String]) -> String {
     format!("sched.run {} {}", show_cfg(&sg.g), show_list(&labels, |x| x.clone()))
 }
 
-pub const CLEAN: &str = "- ; - ; - ; - ; - ; - ; - ; ok ; ok ; ok ; ok ; ok ; ok";
+pub const CLEAN: &str = "- ; - ; - ; - ; - ; - ; - ; ok ; ok ; ok ; ok ; ok ; ok ; ok";
 
 pub fn gen_sched_case(rng: &mut Rng, idx: usize) -> Case {
     sched_case(rng, idx, false)
